@@ -111,6 +111,29 @@ func MsgConnectRequestVersions(versions []pmpx.Version, comps []pmpx.ConnectComp
 	return own(pmpx.BuildConnectRequest(pmpx.ConnectInput{Versions: versions, Compressions: comps}))
 }
 
+// MsgConnectRequestCode builds a message that carries a well-formed connect request (version 1.0)
+// in its connect_request field but another message code: it is not a connect request.
+func MsgConnectRequestCode(code pmpx.Code, withCode bool) []byte {
+	w := pmpx.NewMessageWriter()
+	if withCode {
+		w.Code(code)
+	}
+	w1 := w.ConnectRequest()
+	w2 := w1.Versions()
+	w2.Add(pmpx.Version_Version10)
+	if err := w2.End(); err != nil {
+		panic(err)
+	}
+	w3 := w1.Compression()
+	if err := w3.End(); err != nil {
+		panic(err)
+	}
+	if err := w1.End(); err != nil {
+		panic(err)
+	}
+	return own(w.Build())
+}
+
 func MsgConnectResponse(comp pmpx.ConnectCompression) []byte {
 	return own(pmpx.BuildConnectResponse(pmpx.Version_Version10, comp))
 }
